@@ -58,7 +58,9 @@ class Execution:
 class Scheduler:
     """One execution under one choice prefix."""
 
-    def __init__(self, traced_files: Sequence[str], prefix: Sequence[int], max_steps: int = 20000):
+    def __init__(self, traced_files: Sequence[str], prefix: Sequence[int], max_steps: int = 20000,
+                 policy: Optional[Callable[[List[int], bool, int], int]] = None):
+        self.policy = policy  # beyond the replayed prefix: policy(enabled, running_enabled, point_index) -> choice
         self.traced = set(os.path.realpath(f) for f in traced_files)
         self.prefix = list(prefix)
         self.max_steps = max_steps
@@ -190,6 +192,8 @@ class Scheduler:
                 if c >= len(enabled):
                     self._kill_all()
                     raise ReplayDivergence(f"choice {c} out of range at point {i} (enabled={enabled})")
+            elif self.policy is not None:
+                c = self.policy(enabled, running_enabled, i)
             else:
                 c = 0
             tid = enabled[c]
@@ -260,6 +264,29 @@ class CoopLock:
 
     def __exit__(self, *a):
         self.release()
+
+
+def round_robin(quantum: int, rotation: int) -> Callable[[List[int], bool, int], int]:
+    """Deterministic schedule family: run a thread for `quantum` consecutive points, then hand over to the next
+    enabled thread id in cyclic order; `rotation` shifts which thread the very first choice falls on."""
+    state = {"ran": 0, "first": True}
+
+    def policy(enabled: List[int], running_enabled: bool, i: int) -> int:
+        if state["first"]:
+            state["first"] = False
+            state["ran"] = 1
+            return rotation % len(enabled)
+        if running_enabled and state["ran"] < quantum:
+            state["ran"] += 1
+            return 0
+        state["ran"] = 1
+        if not running_enabled:
+            return 0  # canonical order: ascending ids
+        cur = enabled[0]
+        later = [k for k, t in enumerate(enabled) if k > 0 and t > cur]
+        return later[0] if later else (1 if len(enabled) > 1 else 0)
+
+    return policy
 
 
 # ---------------------------------------------------------------------------------------------
